@@ -635,6 +635,12 @@ def walk_arms(n, stack=()):
             yield from walk_arms(c, stack)
         for a in n["arms"]:
             vs = pat_variants(a["pat"]) or ["_"]
+            # variants matched by nested sub-patterns (e.g. `Ordering { op, rhs: RhsValue::Ip(ip) }`)
+            for q in walk(a["pat"]):
+                if q is not a["pat"] and q.get("k") in ("PStruct", "PTupleStruct", "PExpr"):
+                    v = pat_variant(q)
+                    if v and v not in vs:
+                        vs = list(vs) + [v]
             st = stack + ((n["scrut"].get("ty", ""), tuple(vs)),)
             if "guard" in a:
                 yield from walk_arms(a["guard"], st)
@@ -656,8 +662,9 @@ def arm_variants(stack, enum_suffix):
         if ent[0] == "if":
             continue
         ty, vs = ent
-        if any(("::" + enum_suffix + "::") in ("::" + v) for v in vs if v != "_"):
-            return [last_seg(v) for v in vs]
+        mine = [v for v in vs if v != "_" and ("::" + enum_suffix + "::") in ("::" + v)]
+        if mine:
+            return [last_seg(v) for v in mine]
     return None
 
 
